@@ -118,6 +118,31 @@ def norm_claim(interval, stretch):
     return claim
 
 
+def degenerate_claim(stretch):
+    """a zero-width interval (limits coincide although the data has distinct values - e.g. the quantiles of a sparse image):
+    finite data still maps into [0, 1] and the map is still non-decreasing"""
+    def claim(I):
+        with I.patch(cn):
+            x1 = I.real("x1", -10, 10)
+            x2 = I.real("x2", -10, 10)
+            v = I.real("v", -10, 10)
+            I.assume(x1 <= x2)
+            if I.mode != "sym":
+                x1, x2 = sorted([x1, x2])
+            kw = {"power": 2.0} if stretch == "power" else {}
+            n = cn.CustomNormalization(interval_type="manual", stretch_type=stretch, vmin=0.25, vmax=3.0, **kw)
+            n.interval.vmin, n.interval.vmax = v, v
+            if I.mode == "sym":
+                from ..sym.npx import lift
+                values = lift(np.array([None, x1, x2], dtype=object)[1:])
+            else:
+                values = np.array([x1, x2], dtype=float)
+            y = np.asarray(cn.CustomNormalization.__call__(n, values))
+            return [Rel("range_lower", [y[0], y[1]], 0.0, op="ge"), Rel("range_upper", [y[0], y[1]], 1.0, op="le"),
+                    Rel("monotone", y[0], y[1], op="le")]
+    return claim
+
+
 def inverse_claim(kind):
     def claim(I):
         with I.patch(cn):
@@ -159,6 +184,8 @@ def cases():
             out.append((f"normalize[{iv};{st}]", norm_claim(iv, st)))
     for k in INVERSES:
         out.append((f"inverse[{k}]", inverse_claim(k)))
+    for st in ("linear", "power"):        # (log / asinh with their concrete default parameter: the UF laws are too weak at the clipped end points)
+        out.append((f"degenerate_interval[{st}]", degenerate_claim(st)))
     return out
 
 
